@@ -1,7 +1,208 @@
 import FormulaeModel.Driver.Base
+import FormulaeModel.Model.Transforms
+import FormulaeModel.Spec.C14
+/-
+Driver operations of C14.  Rationals cross the protocol as `[num, den]` (or a plain integer).
+  c14_center   {"calls": [[q…], …]}                      history on one `Center` instance
+  c14_scale    {"calls": [[q…], …]}                      history on one `Scale` instance
+  c14_bs_run   {"calls": [{"x": [q…], "args": {…}}, …]}  history on one `BSpline` instance
+  c14_bs_eval  {"knots": [q…], "degree": k, "intercept": b, "x": [q…]}   `BSpline.eval` only
+  c14_poly_run {"calls": [{"x": [q…], "degree": d, "raw": b}, …]}        history on one `Polynomial`
+  c14_spec     {"kind": …}   the predicates of Spec/C14.lean on the implementation's output
+-/
 namespace FormulaeModel.Driver.C14
-open Lean FormulaeModel FormulaeModel.Driver
+open Lean FormulaeModel FormulaeModel.Driver FormulaeModel.Transforms
 
-def handle (_op : String) (_j : Json) : Option Json := none
+def ratOfJson? (j : Json) : Option Rat :=
+  match j with
+  | .arr #[a, b] =>
+    match a.getInt?, b.getNat? with
+    | .ok n, .ok d => if d = 0 then none else some (mkRat n d)
+    | _, _ => none
+  | _ => match j.getInt? with
+    | .ok n => some (n : Rat)
+    | _ => none
+
+def ratJ (q : Rat) : Json := Json.arr #[toJson q.num, toJson q.den]
+def numJ : Option Rat → Json
+  | some q => ratJ q
+  | none => Json.null
+
+def ratsOf (j : Json) : List Rat :=
+  match j with
+  | .arr a => a.toList.filterMap ratOfJson?
+  | _ => []
+def getRats (j : Json) (k : String) : List Rat := (getArr j k).filterMap ratOfJson?
+def getRat? (j : Json) (k : String) : Option Rat :=
+  match j.getObjVal? k with
+  | .ok v => ratOfJson? v
+  | _ => none
+def ratsJ (l : List Rat) : Json := Json.arr (l.map ratJ).toArray
+def matJ (m : List (List Rat)) : Json := Json.arr (m.map ratsJ).toArray
+def getMat (j : Json) (k : String) : List (List Rat) := (getArr j k).map ratsOf
+def boolsJ (l : List Bool) : Json := Json.arr (l.map Json.bool).toArray
+
+def cellJ : Cell → Json
+  | .quot n d => Json.arr #["q", ratJ n, ratJ d]
+  | .nan => "nan"
+  | .posInf => "inf"
+  | .negInf => "-inf"
+
+def errName : Err → String
+  | .value => "ValueError" | .type => "TypeError" | .index => "IndexError"
+
+def outJ : Out → Json
+  | .vals l => Json.mkObj [("vals", ratsJ l)]
+  | .nans n => Json.mkObj [("nans", n)]
+
+/-! ### argument decoding -/
+def bsArgsOf (j : Json) : BsArgs :=
+  let df : DfArg :=
+    match j.getObjVal? "df" with
+    | .ok (.obj _) => .float (getBool ((j.getObjVal? "df").toOption.getD Json.null) "float")
+    | .ok v => match v.getInt? with
+      | .ok n => .int n
+      | _ => .none
+    | _ => .none
+  let knots : KnotsArg :=
+    match j.getObjVal? "knots" with
+    | .ok (.arr a) => .vec (a.toList.filterMap ratOfJson?)
+    | .ok (.obj o) => .nested (getNat (.obj o) "nested")
+    | _ => .none
+  let degree : DegArg :=
+    match j.getObjVal? "degree" with
+    | .ok v => match v.getInt? with
+      | .ok n => .int n
+      | _ => .nonInt
+    | _ => .int 3
+  { df := df, knots := knots, degree := degree, intercept := getBool j "intercept",
+    lower := getRat? j "lower", upper := getRat? j "upper" }
+
+/-! ### bs -/
+def bsParamsJ (p : BsParams) : List (String × Json) :=
+  [("knots", ratsJ p.knots), ("degree", p.degree), ("intercept", p.intercept),
+   ("ncols", bsNCols p),
+   ("lower", ratJ (tk p.knots p.degree)),
+   ("upper", ratJ (tk p.knots (p.knots.length - p.degree - 1)))]
+
+def bsClasses (x : List Rat) (a : BsArgs) : List (String × Json) :=
+  match min? x, max? x with
+  | some lo, some hi =>
+    [("valid", Spec.C14.validBsArgs lo hi
+        (fun m => (range1 m).map (fun i => percentile (sort x) i m)) a),
+     ("df_float_zero", decide (a.df = .float true))]
+  | _, _ => [("valid", Json.null), ("df_float_zero", decide (a.df = .float true))]
+
+def bsRunGo (s : BS.St) : List Json → List Json
+  | [] => []
+  | c :: cs =>
+    let x := getRats c "x"
+    let a := bsArgsOf ((c.getObjVal? "args").toOption.getD (Json.mkObj []))
+    let cls := bsClasses x a
+    match BS.call s x a with
+    | .error e =>
+      -- a refusal inside `eval` (empty x) happens after the parameters were stored
+      let s' : BS.St := match s with
+        | some p => some p
+        | none => match bsInitialize x a with | .ok p => some p | .error _ => none
+      Json.mkObj ([("err", Json.str (errName e))] ++ cls) :: bsRunGo s' cs
+    | .ok (s', rows) =>
+      let p := s'.getD ⟨false, 0, []⟩
+      Json.mkObj ([("rows", matJ rows),
+                   ("degenerate", boolsJ (x.map (fun v => bsDegenerate p.knots p.degree v)))]
+                  ++ bsParamsJ p ++ cls) :: bsRunGo s' cs
+
+/-! ### poly -/
+def memoJ (m : Poly.Memo) : Json :=
+  let keys : List Nat := ((m.map (·.1)).toArray.qsort (fun a b => decide (a < b))).toList
+  Json.arr (keys.map (fun (k : Nat) =>
+    Json.arr #[toJson k, numJ ((List.lookup k m).getD none)])).toArray
+
+def polyRunGo (s : Poly.St) : List Json → List Json × Poly.St
+  | [] => ([], s)
+  | c :: cs =>
+    let x := getRats c "x"
+    match Poly.call s x (getNat c "degree" 1) (getBool c "raw") with
+    | .error e =>
+      -- `degree`/`raw` were already overwritten when `column_stack` refuses
+      let s1 : Poly.St := if s.paramsSet then s else
+        { s with degree := getNat c "degree" 1, raw := getBool c "raw" }
+      let (r, sf) := polyRunGo s1 cs
+      (Json.mkObj [("err", Json.str (errName e))] :: r, sf)
+    | .ok (s', .raw cols) =>
+      let (r, sf) := polyRunGo s' cs
+      (Json.mkObj [("raw", matJ cols)] :: r, sf)
+    | .ok (s', .ortho cols) =>
+      let (r, sf) := polyRunGo s' cs
+      (Json.mkObj [("ortho", Json.arr (cols.map (fun (p, n2) =>
+          Json.mkObj [("p", Json.arr (p.map numJ).toArray), ("n2", numJ n2)])).toArray)] :: r, sf)
+
+/-! ### Spec predicates on the implementation's output -/
+def pairsOf (x o : List Rat) : List (Rat × Rat) := x.zip o
+
+def laterPairs (j : Json) : List (Rat × Rat) :=
+  (getArr j "later").flatMap (fun c => pairsOf (getRats c "x") (getRats c "out"))
+
+def specOf (j : Json) : Json :=
+  let eps := (getRat? j "eps").getD 0
+  match getStr j "kind" with
+  | "center" =>
+    let train := pairsOf (getRats j "x") (getRats j "out")
+    Json.mkObj [("mean_zero", Spec.C14.meanZero eps (getRats j "out")),
+                ("same_shift", Spec.C14.sameShift eps (train ++ laterPairs j))]
+  | "scale" =>
+    let train := pairsOf (getRats j "x") (getRats j "out")
+    Json.mkObj [("mean_zero", Spec.C14.meanZero eps (getRats j "out")),
+                ("unit_var", Spec.C14.unitPopVar eps (getRats j "out")),
+                ("same_affine", Spec.C14.sameAffine eps train (laterPairs j))]
+  | "bs" =>
+    let lower := (getRat? j "lower").getD 0
+    let upper := (getRat? j "upper").getD 0
+    let ncols := getNat j "ncols"
+    let icpt := getBool j "intercept"
+    let rows := getMat j "rows"
+    let holds := ((getRats j "x").zip rows).map (fun (x, row) =>
+      Spec.C14.bsRowHolds eps icpt lower upper x ncols row)
+    Json.mkObj [("holds", boolsJ holds),
+                ("expected_cols", Spec.C14.expectedCols
+                   (match j.getObjVal? "df" with
+                    | .ok v => match v.getNat? with | .ok n => some n | _ => none
+                    | _ => none)
+                   (getNat j "n_knots") (getNat j "degree") icpt)]
+  | "poly_raw" =>
+    Json.mkObj [("holds", Spec.C14.rawPowers (getRats j "x") (getNat j "degree") (getMat j "cols"))]
+  | "poly_ortho" =>
+    let cols := getMat j "cols"
+    Json.mkObj [("orthonormal", Spec.C14.orthonormal eps cols),
+                ("orth_const", Spec.C14.orthToConst eps cols),
+                ("ncols_ok", cols.length == getNat j "degree")]
+  | k => errJ ("unknown_kind:" ++ k)
+
+def handle (op : String) (j : Json) : Option Json :=
+  match op with
+  | "c14_center" =>
+    let calls := (getArr j "calls").map ratsOf
+    let (s, outs) := Center.run Center.init calls
+    some (Json.mkObj [("outs", Json.arr (outs.map outJ).toArray), ("mean", numJ s.mean),
+                      ("params_set", s.paramsSet)])
+  | "c14_scale" =>
+    let calls := (getArr j "calls").map ratsOf
+    let (s, outs) := Scale.run Scale.init calls
+    some (Json.mkObj [("outs", Json.arr (outs.map (fun o => Json.arr (o.map cellJ).toArray)).toArray),
+                      ("mean", numJ s.mean), ("var", numJ s.var), ("params_set", s.paramsSet)])
+  | "c14_bs_run" => some (Json.mkObj [("results", Json.arr (bsRunGo BS.init (getArr j "calls")).toArray)])
+  | "c14_bs_eval" =>
+    let p : BsParams := ⟨getBool j "intercept", getNat j "degree", getRats j "knots"⟩
+    let x := getRats j "x"
+    some (Json.mkObj [("rows", matJ (x.map (bsRow p))),
+                      ("degenerate", boolsJ (x.map (fun v => bsDegenerate p.knots p.degree v))),
+                      ("ncols", bsNCols p)])
+  | "c14_poly_run" =>
+    let (rs, s) := polyRunGo Poly.init (getArr j "calls")
+    some (Json.mkObj [("results", Json.arr rs.toArray), ("alpha", memoJ s.alpha),
+                      ("norms2", memoJ s.norms2), ("degree", s.degree), ("raw", s.raw),
+                      ("params_set", s.paramsSet)])
+  | "c14_spec" => some (specOf j)
+  | _ => none
 
 end FormulaeModel.Driver.C14
